@@ -515,7 +515,7 @@ func (in *Interp) typeAssert(instr *ssa.TypeAssert, itf iface) value {
 	}
 	if err != "" {
 		if !instr.CommaOk {
-			panic(targetPanic{err})
+			panic(targetPanic{v: err})
 		}
 		return tuple{zero(instr.AssertedType), false}
 	}
@@ -618,7 +618,7 @@ func (in *Interp) callBuiltin(caller *frame, fn *ssa.Builtin, args []value) valu
 		return foldLeft(max, args)
 
 	case "panic":
-		panic(targetPanic{args[0]})
+		panic(targetPanic{v: args[0]})
 
 	case "recover":
 		return in.doRecover(caller)
